@@ -651,8 +651,8 @@ public:
     }
 
     Iterator operator++(int) {
-        Iterator i(current);
-        ++i;
+        Iterator i(*this);
+        ++*this;
         return i;
     }
 
